@@ -19,6 +19,8 @@ type Delivery struct {
 	// PauseAfterWrite / PauseMs: a quiet period after the n-th TCP write (1-based; 0 = none)
 	PauseAfterWrite int `json:"pause_after_write,omitempty"`
 	PauseMs         int `json:"pause_ms,omitempty"`
+	// EmptyEvery: ws only: a zero-length binary message is put in front of every n-th unit (1 = every unit)
+	EmptyEvery int `json:"empty_message_every,omitempty"`
 }
 
 func cutsOf(n int, cuts []int) []int {
@@ -62,6 +64,10 @@ func (t *TClient) wireUnits(stream []byte, d Delivery) [][]byte {
 			op := byte(0x0)
 			if first {
 				op = 0x2
+			}
+			if d.EmptyEvery > 0 && first && i%d.EmptyEvery == 0 {
+				// an empty message contributes no byte to the packet stream
+				units = append(units, t.WSFrame(true, 0x2, nil, false))
 			}
 			units = append(units, t.WSFrame(last, op, p, false))
 			first = last
